@@ -114,6 +114,9 @@ def body_history(a: int, b: int, vv: int, m: int, dt: int, T: int, writable: boo
                                "written by %s read by %s vb=%d v=%d dt=%d T=%d writable=%s" % (dl.PROTO_NAMES[a], dl.PROTO_NAMES[b], vb, v, dt, T, writable))
         if writable:
             hx.require(len(ps.dumps) == ndumps + 1 and vfs.nodes[cachesel].mtime == m + dt, "C10:cache-not-renewed-after-expiry", lambda: "dumps=%r" % (ps.dumps,))
+        if v == 3:
+            # independent of the reference table: the abstract that now exists must be in the regenerated listing
+            hx.require(b"An abstract added later" in r2, "C10:regenerated-listing-misses-current-metadata", lambda: "read by %s: %r" % (dl.PROTO_NAMES[b], r2[:200]))
     return True
 
 
